@@ -30,12 +30,10 @@ theorem fact_get_single_read : Facts.crlGetCalls.map calleeOf = ["os.ReadFile".t
 
 theorem fact_set_single_write : Facts.crlSetCalls.map calleeOf = ["file.WriteFile".toList] := by decide
 
-/-- `file.WriteFile(tempDir, path, content)`: the temp file is created in `tempDir`, the only
-other path touched is `path` (rename target) -/
-theorem fact_writeFile_skeleton :
-    Facts.writeFileParams = ["tempDir", "path", "content"] ∧
-    Facts.writeFileSteps = ["os.CreateTemp(tempDir,tempFileNamePrefix)", "tempFile.Write(content)",
-      "tempFile.Close()", "os.Rename(tempFile.Name(),path)"] := by decide
+/- `file.WriteFile(tempDir, path, content)`: the temp file is created in `tempDir`, `content` is
+written to IT, and the only other path touched is `path` (rename target) - proved from the translated
+source for every oracle in `Props/C14_WriteFile.lean`, restated for this property in
+`Props/C15_WriteFile.lean` (the textual pin of the call skeleton that stood here is gone). -/
 
 /-- (the decision structure of `Get`, `Set`, `checkExpiry` and `fileName` is tied semantically to
 the translated source in section (7); only what the translation hides in oracles is pinned here)
